@@ -416,16 +416,17 @@ static void put_conn (const struct MHD_Connection *mc, int *first)
 {
   if (!*first) putchar (',');
   *first = 0;
-  printf ("%d:%d:%d:%d:%d:%d", cidx (mc), (int) mc->state, (int) mc->event_loop_info,
+  printf ("%d:%d:%d:%d:%d:%d:%d", cidx (mc), (int) mc->state, (int) mc->event_loop_info,
 #ifdef EPOLL_SUPPORT
           (int) mc->epoll_state,
 #else
           0,
 #endif
-          (int) mc->resuming, (int) (mc->read_buffer_size > mc->read_buffer_offset));
+          (int) mc->resuming, (int) (mc->read_buffer_size > mc->read_buffer_offset), (int) (0 != mc->read_buffer_offset));
 }
 
-/* lists head first, i.e. in `next` order; one token per connection: idx:state:eli:epoll_state:resuming:bufspace */
+/* lists head first, i.e. in `next` order; one token per connection: idx:state:eli:epoll_state:resuming:bufspace:buffered
+   (buffered = read_buffer_offset != 0: bytes received and not yet consumed by the parser) */
 static void put_snap (void)
 {
   struct MHD_Connection *p; int first, guard;
